@@ -30,6 +30,8 @@ type config struct {
 	Kind    string `json:"stream"` // twcc | ccfb : how the local stream is negotiated
 	Depth   int    `json:"depth"`
 	First   int    `json:"first_symbol"`
+	Pump    int    `json:"pump_repetitions,omitempty"` // >0: cycle pumping job (cycles up to length Depth, repeated Pump times)
+	Chunk   int    `json:"chunk,omitempty"`
 }
 
 var patterns = []string{"1ms-spacing", "identical-arrival-times", "decreasing-arrival-times", "growing-queueing-delay", "50%-lost", "all-but-last-lost", "duplicated-report", "report-delayed-by-one"}
@@ -376,6 +378,70 @@ func exec(c config, hist []int) hk.Step {
 	return st
 }
 
+// pumpSyms is the reduced alphabet of the pumping jobs.
+var pumpSyms = []int{0, 2, 3, 4, 6, 7, 4 + len(patterns)} // Send(1), Send(5,20ms), FB(1ms), FB(identical), FB(growing delay), FB(50% lost), Advance(250ms)
+
+const pumpChunks = 4
+
+// pumpCycles enumerates every cycle of length 1..maxLen over pumpSyms.
+func pumpCycles(maxLen int) [][]int {
+	var out [][]int
+	var gen func(cur []int)
+	gen = func(cur []int) {
+		if len(cur) > 0 {
+			out = append(out, append([]int(nil), cur...))
+		}
+		if len(cur) == maxLen {
+			return
+		}
+		for _, a := range pumpSyms {
+			gen(append(cur, a))
+		}
+	}
+	gen(nil)
+	return out
+}
+
+// pump repeats one cycle on one estimator and evaluates the invariant after every operation: long
+// histories (hundreds of feedback rounds) that the depth-bounded search cannot reach.
+func pump(c config, cycle []int) *hk.Violation {
+	var v *hk.Violation
+	hist := []int{}
+	res := vsched.Run(vsched.Options{Strategy: vsched.BackgroundFirst{}, MaxSteps: 50_000_000}, func() {
+		sys, err := newSystem(c)
+		if err != nil {
+			vsched.Failf("setup: %v", err)
+			return
+		}
+		for rep := 0; rep < c.Pump; rep++ {
+			for _, a := range cycle {
+				hist = append(hist, a)
+				if _, err := sys.apply(a); err != nil {
+					key := "C16:other"
+					if f, ok := err.(*failure); ok {
+						key = f.key
+					}
+					rp := describe(c, cycle)
+					v = &hk.Violation{Key: key, Message: fmt.Sprintf("after %d repetitions of the cycle %v: %v", rep+1, rp.History, err), Replay: rp}
+					return
+				}
+			}
+		}
+		_ = sys.bwe.Close()
+	})
+	if v == nil {
+		switch {
+		case len(res.Panics) > 0:
+			v = &hk.Violation{Key: "C16:panic", Message: "panic: " + res.Panics[0].Value + "\n" + res.Panics[0].Stack, Replay: describe(c, cycle)}
+		case res.Deadlock:
+			v = &hk.Violation{Key: "C16:feedback-blocks", Message: fmt.Sprintf("a call never returned: %+v", res.Blocked), Replay: describe(c, cycle)}
+		case res.StepLimit:
+			v = &hk.Violation{Key: "C16:livelock", Message: "step budget exceeded: " + res.StepWhere, Replay: describe(c, cycle)}
+		}
+	}
+	return v
+}
+
 func configs(tier string) []config {
 	d := 4
 	if tier == "thorough" {
@@ -394,6 +460,18 @@ func configs(tier string) []config {
 		c.Depth = d
 		for a := 0; a < 3; a++ { // every interesting history starts with a send
 			c.First = a
+			out = append(out, c)
+		}
+	}
+	// cycle pumping: every cycle of length <= 4 over the reduced alphabet, repeated 30 (thorough 60) times
+	reps := 30
+	if tier == "thorough" {
+		reps = 60
+	}
+	for _, c := range append(base, config{Initial: 2_000_000, Min: 1_000_000, Max: 3_000_000, Pacer: "recording", Kind: "twcc"}) {
+		c.Depth, c.Pump = 4, reps
+		for ch := 0; ch < pumpChunks; ch++ {
+			c.Chunk = ch
 			out = append(out, c)
 		}
 	}
@@ -416,6 +494,35 @@ func init() {
 		},
 		Run: func(tier string, i int, deadline time.Time) *hk.JobResult {
 			c := configs(tier)[i]
+			if c.Pump > 0 {
+				r := &hk.JobResult{Exhaustive: true, Outcomes: map[string]int{}, Bounds: map[string]any{"cycle_length": c.Depth, "repetitions": c.Pump, "alphabet": len(pumpSyms)}}
+				keys := map[string]bool{}
+				for n, cyc := range pumpCycles(c.Depth) {
+					if n%pumpChunks != c.Chunk {
+						continue
+					}
+					if !deadline.IsZero() && time.Now().After(deadline) {
+						r.Exhaustive = false
+						break
+					}
+					v := pump(c, cyc)
+					r.Executions++
+					r.States++
+					r.Transitions += int64(c.Pump * len(cyc))
+					r.Nontrivial++
+					if v != nil {
+						r.Outcomes["violation"]++
+						if !keys[v.Key] && len(keys) < 6 {
+							keys[v.Key] = true
+							r.Violations = append(r.Violations, *v)
+						}
+					} else {
+						r.Outcomes["ok"]++
+					}
+				}
+				r.Samples = append(r.Samples, map[string]any{"config": c, "cycle": describe(c, []int{2, 6, 2, 3}).History, "repetitions": c.Pump})
+				return r
+			}
 			r := &hk.JobResult{Exhaustive: true, Bounds: map[string]any{"depth": c.Depth + 1, "alphabet": len(symNames)}}
 			s := &hk.Search{Alphabet: len(symNames), Depth: c.Depth + 1, Dedup: true, Deadline: deadline, Prefix: []int{c.First},
 				Exec:     func(h []int) hk.Step { return exec(c, h) },
@@ -427,6 +534,12 @@ func init() {
 			var rp replay
 			if err := json.Unmarshal(raw, &rp); err != nil {
 				return "bad replay"
+			}
+			if rp.Config.Pump > 0 {
+				if v := pump(rp.Config, rp.Syms); v != nil {
+					return v.Message
+				}
+				return ""
 			}
 			if st := exec(rp.Config, rp.Syms); st.Violation != nil {
 				return st.Violation.Message
